@@ -19,4 +19,4 @@ Extraction "model.ml" Cli.run Cli.run_history Cli.last_ok Cli.spec_run Cli.spec_
   JsonLd.flatten JsonLd.denote
   Yaml.expand_compact Yaml.yget
   ProfileParser.verdict ProfileParser.parse_profile YamlRewrite.related YamlRespell.respell_doc_b YamlRespell.verdict_keys
-  Interleave.handed PathGen.path_rule_lines RuleGen.rule_lines RuleGen.count_snippet RuleGen.pattern_snippet RuleGen.datatype_snippet RuleGen.numeric_snippet RuleGen.in_snippet RuleGen.contains_snippet RuleGen.cmp_snippet Elab.compile.
+  Interleave.handed PathGen.path_rule_lines RuleGen.rule_lines RuleGen.count_snippet RuleGen.pattern_snippet RuleGen.datatype_snippet RuleGen.numeric_snippet RuleGen.in_snippet RuleGen.contains_snippet RuleGen.cmp_snippet Elab.compile Elab.declarative.
